@@ -476,6 +476,12 @@ Arguments bond_get {W} bonds n m.
 Arguments wf_adj {V W} atoms bonds.
 Arguments compile_query {QA QB} atoms bonds.
 Arguments clo_get {QB} c n.
+Arguments clo_append {QB} c k item.
+Arguments cq_init {QA QB} atoms start nbs stack.
+Arguments cq_scan {QA QB} atoms front back seen nbs stack clo.
+Arguments cq_dfs {QA QB} fuel atoms bonds stack order clo seen.
+Arguments cq_outer {QA QB} atoms bonds iter comps clo seen.
+Arguments edge_count {QB} bonds.
 Arguments get_mapping {QA A QB B} amatch bmatch lq clo o_atoms o_bonds scope.
 Arguments gm_from {QA A QB B} amatch bmatch clo o_atoms o_bonds scope rest current mp n.
 Arguments cand_ok {QA A QB B} amatch bmatch clo_sn o_atoms o_bonds scope mp n s_atom s_bond o_n o_bond.
